@@ -990,10 +990,13 @@ func genYUsesCase(r *Rng, tier string) Case {
 func injectClash(r *Rng, c Case) {
 	body := carr(c, "body")
 	plain := carr(c, "plain")
-	type place struct{ b, p map[string]any }
+	type place struct {
+		b, p map[string]any
+		path []string
+	}
 	var places []place
-	var walk func(bk, pk []any)
-	walk = func(bk, pk []any) {
+	var walk func(bk, pk []any, path []string)
+	walk = func(bk, pk []any, path []string) {
 		for _, k := range bk {
 			bn := k.(map[string]any)
 			kind := cstr(bn, "k")
@@ -1018,11 +1021,12 @@ func injectClash(r *Rng, c Case) {
 			if inA2 {
 				continue
 			}
-			places = append(places, place{bn, pn})
-			walk(carr(bn, "kids"), carr(pn, "kids"))
+			here := append(append([]string{}, path...), cstr(bn, "n"))
+			places = append(places, place{bn, pn, here})
+			walk(carr(bn, "kids"), carr(pn, "kids"), here)
 		}
 	}
-	walk(body, plain)
+	walk(body, plain, nil)
 	if len(places) == 0 {
 		return
 	}
@@ -1065,6 +1069,14 @@ func injectClash(r *Rng, c Case) {
 				map[string]any{"k": "leaf", "n": "fzz", "type": map[string]any{"base": "string"}}}}}}
 	} else {
 		dup = map[string]any{"k": "leaf", "n": cstr(victim, "n"), "type": map[string]any{"base": "string"}}
+	}
+	if !mixed && r.Chance(30) {
+		// the second node of the name comes from another module (an augment written in a2): the children of a node are
+		// told apart by their names alone, so the two cannot both be there
+		c["aaugments"] = append(carr(c, "aaugments"), map[string]any{"path": toAny(pl.path), "kids": []any{dup}})
+		pl.p["kids"] = append(carr(pl.p, "kids"), deepCopy(dup))
+		c["clash"] = "cross-" + cstr(victim, "k")
+		return
 	}
 	c["mgroupings"] = append(carr(c, "mgroupings"), map[string]any{"n": "gclash", "kids": []any{dup}})
 	pl.b["kids"] = append(carr(pl.b, "kids"), map[string]any{"k": "uses", "n": "uses-gclash", "g": "gclash"})
